@@ -18,7 +18,7 @@ RULE = ("Hypothesis generates lattices (1-5 sites, 1-3 orbitals, 1-3 spins, arbi
         "heterogeneous spin or orbital counts, or label order != insertion order, or spin-major mode.")
 ASSUMPTIONS = ["labels are unique", "the physics comparison uses pomerol's two index tables to compute the permutation"]
 CONFIG = {
-    "quick": {"flavours": ["real", "complex"], "shards": 8, "examples": 150, "min_nontrivial": 200, "budget_s": 100},
+    "quick": {"flavours": ["real", "complex"], "shards": 8, "examples": 500, "min_nontrivial": 200, "budget_s": 120},
     "thorough": {"flavours": ["real", "complex"], "shards": 16, "examples": 2500, "min_nontrivial": 5000, "budget_s": 3000},
 }
 REQUIRED_CLASSES = {"quick": ["spin-major", "heterogeneous-spins", "label-order!=insertion", "physics", "relabelled", "chi-container"],
